@@ -1,11 +1,733 @@
-// Package evmsyncstream: stub, replaced by the component's correspondence stream.
+// Package evmsyncstream: correspondence of the real StateDBWrapper (ctrlers/vm/evm/statedb.go) with
+// the Lean model Rigo/EvmSync.lean on the wrapper's own trace events, plus an implementation-level
+// monitor of the sync protocol written from the statement of C17.
+//
+// Histories with contract transactions are generated with the shared application generator
+// (apphist, WithEVM) and extended by contract programs that touch fresh addresses inside reverting
+// call frames (evmgen/sync.go). Every transaction that reaches the EVM leaves a trace
+// (verifhook.Trace: snapshot n / syncin addr tag / revert id / unsync addr id / syncout addr); the
+// trace is converted into driver lines (snapshot / access / revert / finish / finalise), the model's
+// predicted tags, un-sync sets and sync-out sets are compared with the real ones, and the model's
+// discipline automaton must accept the real trace.
 package evmsyncstream
 
-import "verifharness/internal/common"
+import (
+	"fmt"
+	"os"
+	"sort"
+	"strings"
+
+	"github.com/ethereum/go-ethereum/common"
+	"github.com/holiman/uint256"
+	ctrlertypes "github.com/rigochain/rigo-go/ctrlers/types"
+	rtypes "github.com/rigochain/rigo-go/types"
+	tmtypes "github.com/tendermint/tendermint/types"
+	"verifharness/internal/appdrv"
+	"verifharness/internal/apphist"
+	"verifharness/internal/appmon"
+	vcommon "verifharness/internal/common"
+	"verifharness/internal/evmgen"
+	"verifharness/internal/rng"
+)
+
+// one driver line with what the real code did
+type line struct {
+	in   string // driver input
+	want string // real reaction in the model's output vocabulary ("" = reset)
+	tx   int    // index of the transaction (within the history) the line belongs to, -1 = none
+	last bool   // last line of its transaction: the discipline phase must be idle again
+}
+
+type txInfo struct {
+	hash   string
+	ok     bool
+	events []string
+}
+
+// observer collects the traces of one history and runs the implementation-level monitor.
+type observer struct {
+	lines  []line
+	txs    []txInfo
+	viol   []vcommon.Violation
+	checks map[string]int
+	shapes vcommon.Distinct
+	dist   map[string]int
+	evmPre map[string][2]string // EVM-side balance/nonce of every native account before the tx
+}
+
+func newObserver() *observer {
+	return &observer{checks: map[string]int{}, shapes: vcommon.Distinct{}, dist: map[string]int{}}
+}
+
+func (m *observer) fail(s *apphist.Sim, kind, detail string) {
+	for _, v := range m.viol {
+		if v.Kind == kind {
+			return // one per kind and history
+		}
+	}
+	m.viol = append(m.viol, vcommon.Violation{Property: "C17", Kind: kind, Detail: detail, Ops: s.ReplayLines()})
+}
+
+func (m *observer) OnInit(s *apphist.Sim, post string) {}
+func (m *observer) OnBegin(s *apphist.Sim, a *apphist.BeginArgs, pre, post string, out appdrv.BeginOut) {
+	// BeginBlock builds a fresh wrapper over a fresh go-ethereum StateDB: revision ids restart at 0
+	m.lines = append(m.lines, line{in: "reset", want: "reset", tx: -1})
+}
+func (m *observer) OnEnd(s *apphist.Sim, pre, post string, ups []appdrv.ValUp) {}
+func (m *observer) OnCommit(s *apphist.Sim, post string, hash []byte)        {}
+func (m *observer) OnRestart(s *apphist.Sim, infoOK bool)                    {}
+func (m *observer) OnQuery(s *apphist.Sim, path string, data []byte, h int64, canon string) {
+}
+
+func addr20(b []byte) common.Address {
+	var a common.Address
+	copy(a[:], b)
+	return a
+}
+
+func unhex(h string) []byte {
+	if h == "-" {
+		return nil
+	}
+	b := make([]byte, len(h)/2)
+	for i := range b {
+		fmt.Sscanf(h[2*i:2*i+2], "%02x", &b[i])
+	}
+	return b
+}
+
+// evmView reads balance / nonce of the given native accounts from the node's go-ethereum state.
+func evmView(s *apphist.Sim, addrs []string) map[string][2]string {
+	w := s.N.App.VerifEVM().VerifStateDB()
+	if w == nil || w.StateDB == nil {
+		return nil
+	}
+	out := map[string][2]string{}
+	for _, a := range addrs {
+		b := unhex(a)
+		if len(b) != 20 {
+			continue
+		}
+		out[a] = [2]string{w.StateDB.GetBalance(addr20(b)).String(), fmt.Sprint(w.StateDB.GetNonce(addr20(b)))}
+	}
+	return out
+}
+
+func acctAddrs(st *appmon.State) []string {
+	var out []string
+	for a := range st.Accts {
+		out = append(out, a)
+	}
+	sort.Strings(out)
+	return out
+}
+
+func (m *observer) OnPreDeliver(s *apphist.Sim, bz []byte) {
+	m.evmPre = evmView(s, acctAddrs(appmon.Parse(s.N.Dump())))
+}
+
+func joinOrDash(l []string) string {
+	if len(l) == 0 {
+		return "-"
+	}
+	return strings.Join(l, ",")
+}
+
+// shapeOf abstracts a trace to its event kinds (run lengths capped) for the distinct-case count.
+func shapeOf(events []string) string {
+	var sb strings.Builder
+	prev, n := "", 0
+	flush := func() {
+		if prev == "" {
+			return
+		}
+		sb.WriteString(prev)
+		if n > 1 {
+			if n > 3 {
+				n = 3
+			}
+			sb.WriteString(fmt.Sprint(n))
+		}
+	}
+	for _, e := range events {
+		k := map[string]string{"snapshot": "S", "syncin": "i", "revert": "R", "unsync": "u", "syncout": "o"}[strings.Fields(e)[0]]
+		if k == prev {
+			n++
+			continue
+		}
+		flush()
+		prev, n = k, 1
+	}
+	flush()
+	return sb.String()
+}
+
+func (m *observer) OnDeliver(s *apphist.Sim, bz []byte, pre, post string, o appdrv.TxOut, tr *appdrv.EvmTrace) {
+	if tr == nil || len(tr.Events) == 0 {
+		return
+	}
+	hash := appdrv.Hex(tmtypes.Tx(bz).Hash())
+	ok := o.Code == 0
+	ti := len(m.txs)
+	m.txs = append(m.txs, txInfo{hash: hash, ok: ok, events: tr.Events})
+	m.shapes.Add(fmt.Sprintf("%v/%s", ok, shapeOf(tr.Events)))
+
+	// ---------------------------------------------------------------- driver lines
+	type ev struct {
+		kind, addr string
+		n          int
+	}
+	var evs []ev
+	for _, e := range tr.Events {
+		f := strings.Fields(e)
+		var n int
+		fmt.Sscan(f[2], &n)
+		evs = append(evs, ev{f[0], f[1], n})
+	}
+	var syncouts []string
+	for _, e := range evs {
+		if e.kind == "syncout" {
+			syncouts = append(syncouts, e.addr)
+		}
+	}
+	sortedOuts := append([]string(nil), syncouts...)
+	sort.Strings(sortedOuts)
+	finished := false
+	finish := func() {
+		if finished {
+			return
+		}
+		finished = true
+		m.lines = append(m.lines, line{in: "finish", want: "syncout " + joinOrDash(sortedOuts), tx: ti})
+		if ok {
+			m.lines = append(m.lines, line{in: "finalise", want: "ok", tx: ti})
+		}
+	}
+	nRevert, nUnsync, nestedRevert, resync := 0, 0, 0, 0
+	everUnsynced := map[string]bool{}
+	firstSnap, secondSnap := -1, -1 // ExecuteTrx's snapshot and the top-level call frame's
+	for i := 0; i < len(evs); i++ {
+		e := evs[i]
+		switch e.kind {
+		case "snapshot":
+			if firstSnap < 0 {
+				firstSnap = e.n
+			} else if secondSnap < 0 {
+				secondSnap = e.n
+			}
+			m.lines = append(m.lines, line{in: fmt.Sprintf("snapshot %d", e.n), want: fmt.Sprintf("snap %d", e.n), tx: ti})
+		case "syncin":
+			if everUnsynced[e.addr] {
+				resync++
+			}
+			m.lines = append(m.lines, line{in: "access " + e.addr, want: fmt.Sprintf("tag %d", e.n), tx: ti})
+		case "revert":
+			var un []string
+			j := i + 1
+			for j < len(evs) && evs[j].kind == "unsync" {
+				if evs[j].n != e.n {
+					m.fail(s, "sync-protocol", fmt.Sprintf("tx %s: un-sync event for revision %d inside revert %d", hash, evs[j].n, e.n))
+				}
+				un = append(un, evs[j].addr)
+				everUnsynced[evs[j].addr] = true
+				j++
+			}
+			sort.Strings(un)
+			nRevert++
+			nUnsync += len(un)
+			if e.n != firstSnap && e.n != secondSnap {
+				nestedRevert++
+			}
+			m.lines = append(m.lines, line{in: fmt.Sprintf("revert %d", e.n), want: "unsync " + joinOrDash(un), tx: ti})
+			i = j - 1
+		case "unsync":
+			m.fail(s, "sync-protocol", fmt.Sprintf("tx %s: un-sync of %s outside RevertToSnapshot", hash, e.addr))
+		case "syncout":
+			finish()
+		}
+	}
+	finish()
+	m.lines[len(m.lines)-1].last = true
+
+	m.dist[fmt.Sprintf("tx ok=%v", ok)]++
+	if nestedRevert > 0 {
+		m.dist[fmt.Sprintf("tx ok=%v with inner-frame revert", ok)]++
+	}
+	if nUnsync > 0 && nestedRevert > 0 {
+		m.dist["tx with inner-frame revert un-syncing addresses"]++
+	}
+	if resync > 0 {
+		m.dist["address synced in again after un-sync"]++
+	}
+	m.dist["events"] += len(evs)
+
+	// ---------------------------------------------------------------- monitor (independent of the model)
+	// tag rule, from the statement: `revert id` un-syncs exactly the addresses whose (still standing)
+	// sync-in happened after `Snapshot()` returned id
+	snapAt := map[int]int{}      // revision id -> event index
+	syncedAt := map[string]int{} // standing sync-ins: address -> event index
+	for i := 0; i < len(evs); i++ {
+		e := evs[i]
+		switch e.kind {
+		case "snapshot":
+			snapAt[e.n] = i
+		case "syncin":
+			if _, dup := syncedAt[e.addr]; dup {
+				m.fail(s, "sync-protocol", fmt.Sprintf("tx %s: %s synced in twice without un-sync in between", hash, e.addr))
+			}
+			syncedAt[e.addr] = i
+		case "revert":
+			at, known := snapAt[e.n]
+			if !known {
+				m.fail(s, "sync-protocol", fmt.Sprintf("tx %s: revert to revision %d that was not taken in this transaction", hash, e.n))
+				continue
+			}
+			var want []string
+			for a, k := range syncedAt {
+				if k > at {
+					want = append(want, a)
+				}
+			}
+			sort.Strings(want)
+			var got []string
+			for j := i + 1; j < len(evs) && evs[j].kind == "unsync"; j++ {
+				got = append(got, evs[j].addr)
+			}
+			sort.Strings(got)
+			if strings.Join(want, ",") != strings.Join(got, ",") {
+				m.fail(s, "sync-protocol", fmt.Sprintf("tx %s: revert %d un-synced [%s]; the addresses synced in after that snapshot are [%s] (trace %v)",
+					hash, e.n, strings.Join(got, ","), strings.Join(want, ","), tr.Events))
+			}
+			for _, a := range got {
+				delete(syncedAt, a)
+			}
+			gone := 0
+			for id, k := range snapAt { // the revision and all later ones are gone
+				if k >= at {
+					delete(snapAt, id)
+					gone++
+				}
+			}
+			if gone > 1 {
+				m.dist["revert to an outer id (several live revisions discarded)"]++
+			}
+			m.checks["tag-rule"]++
+		}
+	}
+	var standing []string
+	for a := range syncedAt {
+		standing = append(standing, a)
+	}
+	sort.Strings(standing)
+	if !ok {
+		// (a) failed contract transaction: nothing synced out, native ledger unchanged up to empty accounts
+		if len(syncouts) > 0 {
+			m.fail(s, "sync-out-on-failure", fmt.Sprintf("failed tx %s (%s) synced out %v", hash, appdrv.ErrKind(o.Code, o.Log), syncouts))
+		}
+		if appmon.NonEmptyDump(pre) != appmon.NonEmptyDump(post) {
+			a, b := appmon.DiffTokens(appmon.NonEmptyDump(pre), appmon.NonEmptyDump(post))
+			m.fail(s, "sync-out-on-failure", fmt.Sprintf("failed tx %s (%s) changed the native ledger: before-only=%v after-only=%v", hash, appdrv.ErrKind(o.Code, o.Log), a, b))
+		}
+		if len(standing) > 0 {
+			m.fail(s, "sync-protocol", fmt.Sprintf("failed tx %s: %v still synced in after the top-level revert", hash, standing))
+		}
+		m.checks["failure-atomic"]++
+	} else {
+		// (b) success: exactly the standing sync-ins are synced out, once each
+		if strings.Join(standing, ",") != strings.Join(sortedOuts, ",") {
+			m.fail(s, "sync-protocol", fmt.Sprintf("tx %s: synced out [%s], standing sync-ins [%s]", hash, strings.Join(sortedOuts, ","), strings.Join(standing, ",")))
+		}
+		m.checks["syncout-set"]++
+	}
+	// (c) discipline proxy: after the transaction the native account of every synced-out address
+	// equals go-ethereum's balance / nonce, and go-ethereum's copy of every OTHER native account is
+	// what it was before the transaction (no balance / nonce write outside the accessed set)
+	postSt := appmon.Parse(post)
+	view := evmView(s, acctAddrs(postSt))
+	outSet := map[string]bool{}
+	for _, a := range syncouts {
+		outSet[a] = true
+	}
+	if view != nil {
+		w := s.N.App.VerifEVM().VerifStateDB()
+		for _, a := range acctAddrs(postSt) {
+			ac := postSt.Accts[a]
+			v, have := view[a]
+			if !have {
+				continue
+			}
+			if outSet[a] {
+				if v[0] != ac.Bal.String() || v[1] != fmt.Sprint(ac.Nonce) {
+					if ok && !w.StateDB.Exist(addr20(unhex(a))) && v[0] == ac.Bal.String() && ac.Code != "-" {
+						// known: Finish copies the nonce of a self-destructed contract before Finalise deletes it
+						m.fail(s, "evm-ref-selfdestruct-nonce", fmt.Sprintf("tx %s: self-destructed contract %s keeps nonce %d in the native ledger; go-ethereum's account is gone", hash, a, ac.Nonce))
+						continue
+					}
+					m.fail(s, "sync-out-mismatch", fmt.Sprintf("tx %s: native account %s is %s/%d after sync-out, go-ethereum holds %s/%s", hash, a, ac.Bal, ac.Nonce, v[0], v[1]))
+				}
+				m.checks["syncout-value"]++
+			} else if p, had := m.evmPre[a]; had && p != v {
+				m.fail(s, "undisciplined-write", fmt.Sprintf("tx %s (ok=%v): go-ethereum's copy of %s changed from %s/%s to %s/%s although the address was not synced out", hash, ok, a, p[0], p[1], v[0], v[1]))
+			}
+		}
+		m.checks["discipline-proxy"]++
+	}
+}
+
+// ---------------------------------------------------------------------------- generator
+
+type custom struct {
+	touch, retouch, recurse rtypes.Address
+	pending                 map[string]*rtypes.Address
+}
+
+func fundedKey(s *apphist.Sim, r *rng.R) *appdrv.Key {
+	for i := 0; i < 10; i++ {
+		k := s.Keys[r.Intn(len(s.Keys))]
+		if ac := s.N.AccountView(k.Addr); ac != nil && ac.Balance.Cmp(apphist.Rigo(2)) > 0 {
+			return k
+		}
+	}
+	return s.Keys[r.Intn(len(s.Keys))]
+}
+
+func contractTx(s *apphist.Sim, r *rng.R, k *appdrv.Key, to rtypes.Address, amt *uint256.Int, data []byte) []byte {
+	nonce := uint64(0)
+	if ac := s.N.AccountView(k.Addr); ac != nil {
+		nonce = ac.Nonce
+	}
+	spec := &appdrv.TxSpec{Version: 1, Time: s.Time*1000000000 + int64(r.Intn(1000)), Nonce: nonce, From: k.Addr, To: to, Amount: amt,
+		Gas: 3000000, GasPrice: s.N.App.VerifGov().VerifActiveParams().GasPrice(), Type: ctrlertypes.TRX_CONTRACT,
+		Payload: &ctrlertypes.TrxPayloadContract{Data: data}, Signer: k, SignChain: s.N.ChainID}
+	return spec.Build()
+}
+
+// next returns one transaction aimed at the sync protocol: deployments of the three programs first,
+// then calls with fresh / known / contract addresses as the touched address.
+func (c *custom) next(s *apphist.Sim, r *rng.R) []byte {
+	k := fundedKey(s, r)
+	deploy := func(p evmgen.Program, slot *rtypes.Address) []byte {
+		s.PendingProg[string(p.Init)] = p
+		c.pending[string(p.Init)] = slot
+		return contractTx(s, r, k, rtypes.ZeroAddress(), uint256.NewInt(0), p.Init)
+	}
+	switch {
+	case c.touch == nil:
+		return deploy(evmgen.TouchReverter(), &c.touch)
+	case c.retouch == nil:
+		return deploy(evmgen.Retoucher(), &c.retouch)
+	case c.recurse == nil:
+		return deploy(evmgen.Recurser(), &c.recurse)
+	}
+	x := func() rtypes.Address {
+		switch r.Pick(4, 3, 2, 1) {
+		case 0:
+			return r.Bytes(20)
+		case 1:
+			return s.Keys[r.Intn(len(s.Keys))].Addr
+		case 2:
+			if len(s.Contracts) > 0 {
+				return s.Contracts[r.Intn(len(s.Contracts))].Addr
+			}
+			return r.Bytes(20)
+		default:
+			return k.Addr
+		}
+	}
+	val := uint256.NewInt(0)
+	if r.Chance(70) {
+		val = uint256.NewInt(uint64(r.Range(2, 2000)))
+	}
+	if r.Chance(55) {
+		callee := c.touch
+		if r.Chance(20) && len(s.Contracts) > 0 {
+			callee = s.Contracts[r.Intn(len(s.Contracts))].Addr
+		}
+		data := append(evmgen.Word(callee), evmgen.Word(x())...)
+		return contractTx(s, r, k, c.retouch, val, data)
+	}
+	n := r.Range(1, 7)
+	return contractTx(s, r, k, c.recurse, val, evmgen.Word([]byte{byte(n)}))
+}
+
+func (c *custom) after(bz []byte, o appdrv.TxOut) {
+	tx := &ctrlertypes.Trx{}
+	if o.Code != 0 || tx.Decode(bz) != nil || tx.Type != ctrlertypes.TRX_CONTRACT || !rtypes.IsZeroAddress(tx.To) || len(o.Data) != 20 {
+		return
+	}
+	if p, ok := tx.Payload.(*ctrlertypes.TrxPayloadContract); ok {
+		if slot, ok := c.pending[string(p.Data)]; ok && *slot == nil {
+			*slot = append([]byte(nil), o.Data...)
+		}
+	}
+}
+
+// runHistory generates and executes one history (shared generator + sync-protocol programs).
+func runHistory(seed uint64, r *rng.R, work string, opt apphist.Options, obs apphist.Observer) (*apphist.Sim, error) {
+	s, err := apphist.NewSim(seed, r, work, opt)
+	if err != nil {
+		return nil, err
+	}
+	s.Obs = obs
+	s.Init()
+	c := &custom{pending: map[string]*rtypes.Address{}}
+	nblocks := r.Range(opt.MaxBlocks/2, opt.MaxBlocks)
+	for b := 0; b < nblocks && s.N.Dead == ""; b++ {
+		if !s.Begin() {
+			break
+		}
+		ntx := r.Intn(opt.TxPerBlock + 1)
+		for i := 0; i < ntx; i++ {
+			var bz []byte
+			if r.Chance(45) {
+				bz = c.next(s, r)
+			} else {
+				bz = s.GenTx()
+			}
+			o, _ := s.Deliver(bz)
+			s.After(bz, o)
+			c.after(bz, o)
+			if r.Chance(4) { // replay of the same bytes
+				o2, _ := s.Deliver(bz)
+				s.After(bz, o2)
+			}
+		}
+		if !s.End() || !s.Commit() {
+			break
+		}
+		if r.Chance(6) {
+			if err := s.Restart(); err != nil {
+				return s, err
+			}
+		}
+	}
+	return s, nil
+}
+
+// ---------------------------------------------------------------------------- comparison
+
+func stripPhase(l string) (out, phase string) {
+	i := strings.LastIndex(l, " ")
+	if i < 0 {
+		return l, ""
+	}
+	return l[:i], l[i+1:]
+}
+
+// compare pipes the collected lines to the Lean driver; returns the first disagreement (nil if none)
+// and reports traces the model's discipline automaton rejects.
+func compare(res *vcommon.Result, hi int, s *apphist.Sim, m *observer, driver string) {
+	if len(m.lines) == 0 {
+		return
+	}
+	in := make([]string, len(m.lines))
+	for i, l := range m.lines {
+		in[i] = l.in
+	}
+	out, err := vcommon.RunDriver(driver, "evmsync", in)
+	if err != nil {
+		res.Error = err.Error()
+		return
+	}
+	if len(out) != len(in) {
+		res.Error = fmt.Sprintf("model produced %d lines for %d inputs", len(out), len(in))
+		return
+	}
+	for i, l := range m.lines {
+		if l.in == "reset" {
+			continue
+		}
+		res.Evaluations++
+		got, phase := stripPhase(out[i])
+		if got != l.want {
+			tx := m.txs[l.tx]
+			res.Disagreements = append(res.Disagreements, vcommon.Disagreement{History: hi, Index: i, Op: l.in,
+				Impl: l.want, Model: got + fmt.Sprintf(" (tx %s ok=%v trace %v)", tx.hash, tx.ok, tx.events), Ops: s.ReplayLines()})
+			return
+		}
+		if phase == "undisciplined" || (l.last && phase != "idle") {
+			tx := m.txs[l.tx]
+			m.fail(s, "undisciplined-trace", fmt.Sprintf("tx %s (ok=%v): the wrapper's trace leaves the ExecuteTrx / access-list discipline at `%s` (phase %s): %v", tx.hash, tx.ok, l.in, phase, tx.events))
+			return
+		}
+	}
+}
+
+func knownKind(v vcommon.Violation) bool {
+	bz, err := os.ReadFile("/verif/known_findings.jsonl")
+	if err != nil {
+		return false
+	}
+	for _, l := range strings.Split(string(bz), "\n") {
+		if strings.Contains(l, `"property": "`+v.Property+`"`) && strings.Contains(l, `"kind": "`+v.Kind+`"`) && !strings.Contains(l, `"status": "fixed"`) {
+			return true
+		}
+	}
+	return false
+}
+
+// shrink drops delivered transactions one at a time while the same violation kind recurs.
+func shrink(v vcommon.Violation, work, driver string) []string {
+	cur := v.Ops
+	same := func(lines []string, n int) bool {
+		hw := fmt.Sprintf("%s/shrink%d", work, n)
+		_ = os.MkdirAll(hw, 0755)
+		defer os.RemoveAll(hw)
+		m := newObserver()
+		s, err := apphist.RunReplay(lines, hw, m)
+		if s != nil && s.N != nil {
+			defer s.N.Close()
+		}
+		if err != nil {
+			return false
+		}
+		tmp := vcommon.NewResult("evmsync", 0, "")
+		compare(tmp, 0, s, m, driver)
+		for _, w := range m.viol {
+			if w.Kind == v.Kind {
+				return true
+			}
+		}
+		return false
+	}
+	budget := 40
+	for i := len(cur) - 1; i >= 0 && budget > 0; i-- {
+		f := strings.Fields(cur[i])
+		if len(f) == 0 || f[0] != "deliver" {
+			continue
+		}
+		cand := append(append([]string(nil), cur[:i]...), cur[i+1:]...)
+		budget--
+		if same(cand, budget) {
+			cur = cand
+		}
+	}
+	return cur
+}
+
+func collect(res *vcommon.Result, hi int, s *apphist.Sim, m *observer, work, driver string, doShrink bool) {
+	nd := len(res.Disagreements)
+	compare(res, hi, s, m, driver)
+	if len(res.Disagreements) > nd && doShrink {
+		// shrink the disagreeing history: keep dropping transactions while some disagreement remains
+		d := &res.Disagreements[len(res.Disagreements)-1]
+		cur := d.Ops
+		budget := 30
+		for i := len(cur) - 1; i >= 0 && budget > 0; i-- {
+			f := strings.Fields(cur[i])
+			if len(f) == 0 || f[0] != "deliver" {
+				continue
+			}
+			cand := append(append([]string(nil), cur[:i]...), cur[i+1:]...)
+			budget--
+			hw := fmt.Sprintf("%s/dshrink%d", work, budget)
+			_ = os.MkdirAll(hw, 0755)
+			m2 := newObserver()
+			s2, err := apphist.RunReplay(cand, hw, m2)
+			if err == nil {
+				tmp := vcommon.NewResult("evmsync", 0, "")
+				compare(tmp, 0, s2, m2, driver)
+				if len(tmp.Disagreements) > 0 {
+					cur = cand
+				}
+			}
+			if s2 != nil && s2.N != nil {
+				s2.N.Close()
+			}
+			_ = os.RemoveAll(hw)
+		}
+		d.Ops = cur
+	}
+	for _, v := range m.viol {
+		if doShrink && !knownKind(v) {
+			v.Ops = shrink(v, work, driver)
+		}
+		res.Violations = append(res.Violations, v)
+	}
+	for k, n := range m.checks {
+		res.Distribution["monitor:"+k] += n
+	}
+	for k, n := range m.dist {
+		res.Distribution[k] += n
+	}
+}
 
 // Run is the stream entry point (seed, tier quick|thorough, scratch dir, rigodriver path, optional replay lines).
-func Run(seed uint64, tier, work, driver string, replay []string) *common.Result {
-	res := common.NewResult("evmsync", seed, tier)
-	res.Error = "stream not implemented"
+func Run(seed uint64, tier, work, driver string, replay []string) *vcommon.Result {
+	res := vcommon.NewResult("evmsync", seed, tier)
+	res.Rule = "generated block histories with contract deployments / calls / transfers to contracts (shared generator) plus programs that touch " +
+		"fresh addresses inside reverting call frames, re-touch them afterwards and recurse with reverts at odd depths, executed on the real RigoApp; " +
+		"a case is one wrapper event (Snapshot / sync-in / RevertToSnapshot with its un-sync set / Finish with its sync-out set / Finalise) replayed on the Lean model; " +
+		"distinct_nontrivial counts distinct (outcome, event-kind sequence) shapes of transaction traces"
+	shapes := vcommon.Distinct{}
+	if replay != nil {
+		hw := work + "/replay"
+		_ = os.MkdirAll(hw, 0755)
+		m := newObserver()
+		s, err := apphist.RunReplay(replay, hw, m)
+		if err != nil {
+			res.Error = err.Error()
+			return res
+		}
+		res.Histories = 1
+		collect(res, 0, s, m, work, driver, false)
+		s.N.Close()
+		_ = os.RemoveAll(hw)
+		res.DistinctNontrivial = len(m.shapes)
+		res.Samples = append(res.Samples, replay[:1]...)
+		return res
+	}
+	r := rng.New(seed)
+	nh := 40
+	opt := apphist.Options{MaxBlocks: 16, TxPerBlock: 6, InvalidPct: 12, WithEVM: true}
+	if tier == "thorough" {
+		nh = 200
+		opt.MaxBlocks = 50
+		opt.TxPerBlock = 8
+	}
+	for i := 0; i < nh; i++ {
+		hr := r.Fork()
+		hw := fmt.Sprintf("%s/h%d", work, i)
+		_ = os.MkdirAll(hw, 0755)
+		m := newObserver()
+		s, err := runHistory(seed*1000+uint64(i), hr, hw, opt, m)
+		if err != nil {
+			res.Error = err.Error()
+			_ = os.RemoveAll(hw)
+			return res
+		}
+		res.Histories++
+		if p := os.Getenv("VERIF_EVMSYNC_DUMP"); p != "" && i == 0 {
+			_ = os.WriteFile(p, []byte("# property=C17 stream=evmsync seed="+fmt.Sprint(seed)+"\n"+strings.Join(s.ReplayLines(), "\n")+"\n"), 0644)
+		}
+		collect(res, i, s, m, hw, driver, true)
+		s.N.Close()
+		_ = os.RemoveAll(hw)
+		if res.Error != "" {
+			return res
+		}
+		for k := range m.shapes {
+			shapes.Add(k)
+		}
+		if s.N != nil && s.N.Dead != "" {
+			res.Notes = append(res.Notes, fmt.Sprintf("history %d: node died: %.200s", i, s.N.Dead))
+		}
+		for _, t := range m.txs {
+			if len(res.Samples) < 6 && strings.Contains(shapeOf(t.events), "Ru") {
+				res.Samples = append(res.Samples, fmt.Sprintf("tx %s ok=%v: %s", t.hash[:12], t.ok, strings.Join(t.events, "; ")))
+			}
+		}
+		fresh := 0
+		for _, v := range res.Violations {
+			if !knownKind(v) {
+				fresh++
+			}
+		}
+		if len(res.Disagreements) >= 3 || fresh >= 4 {
+			break
+		}
+	}
+	res.DistinctNontrivial = len(shapes)
 	return res
 }
+
